@@ -479,3 +479,6 @@ SPECS["C19"]["rule"] += ("; client state machine: Dial/DialContext/Enroll/Enroll
 SPECS["C14"]["rule"] += ("; deletions are also aimed at matrix positions (the last and first columns of the rows at and below the next-free slot), since registration order and position part company after the first compaction")
 SPECS["C15"]["rule"] += ("; the policy half also draws address strings forged to have a boundary CRC-32 value (0, 1, 0x7FFFFFFF, 0x80000000, 0x80000001, 0xFFFFFFFE, 0xFFFFFFFF); "
                          "the engine half, under Source-Addr-Hash, also registers connections through Engine.Register (a net.Conn, optionally with a differing net.Addr in the context): all connections registered to one target share a loop")
+SPECS["C03"]["rule"] += ("; Wake / CloseWithCallback / AsyncWrite / Close scripts of 2..6 requests per connection issued back to back, so that later requests are carried out after an earlier one has closed the connection: every accepted request's callback runs exactly once")
+SPECS["C04"]["rule"] += ("; client UDP generator: 0/2/8 goroutines are inside AsyncWrite while a socket is closed, and a stale AsyncWrite must complete with the closed-connection error (an EBADF would mean the request reached the descriptor number)")
+SPECS["C06"]["rule"] += ("; the OnClose+writeerr source draws the failing call (Write / Writev / ReadFrom+Flush); the OnTraffic source may be answered by a connected UDP socket (Client.Dial on a client, Engine.Register with a UDP address on a server engine); the Wake source with or without a callback")
